@@ -348,6 +348,11 @@ pub fn gen_msg_len(t: &mut Tape<'_>, bs: usize, max_blocks: usize) -> usize {
         // rare: byte lengths around 256 blocks
         return [255 * bs + any, 256 * bs, 256 * bs + 1][class as usize - 253];
     }
+    if (247..253).contains(&class) && max_blocks >= 6 && bs <= 64 {
+        // uncommon: 17..=32 blocks (beyond the bulk-path thresholds of buffered and parallel code), +0, +1, +any
+        let nb = 17 + (k * 5 + any) % 16;
+        return nb * bs + [0, 1, any][class as usize % 3];
+    }
     let v = match class {
         0..=9 => 0,
         10..=29 => any,             // < one block (possibly 0)
@@ -383,6 +388,7 @@ pub fn gen_cuts(t: &mut Tape<'_>, len: usize, bs: usize, max_pieces: usize) -> V
                 126..=150 => (to_boundary + bs).saturating_sub(1), // one short of the next one
                 151..=175 => to_boundary + bs * (1 + amt % 3),  // whole blocks, ending on a boundary
                 176..=200 => (amt * bs) / 256,                  // shorter than a block
+                246..=255 => bs * (1 + amt % 20),               // whole blocks from wherever we are (possibly mid-block)
                 _ => (amt * (left + 1)) / 256,
             }
         }
@@ -624,19 +630,20 @@ pub fn position_stream(
     p: Pos,
     bs: usize,
     reach: Reach,
+    how: Ctor,
     sigp: &str,
 ) -> Result<Box<dyn StreamObj>, Violation> {
     let ty = f.type_name();
     match reach {
         Reach::Seek(nt) => {
-            let mut s = f.make(Ctor::New, key, iv).expect("harness: ctor");
+            let mut s = f.make(how, key, iv).expect("harness: ctor");
             let bytes = p.bytes(bs).expect("harness: seek position fits u128");
             let res = s.try_seek(nt, bytes).ok_or_else(|| Violation { sig: format!("{sigp}/not-seekable/{ty}"), msg: "type no longer implements StreamCipherSeek".into() })?;
             ensure!(res.is_ok(), format!("{sigp}/seek-rejected/{ty}"), "try_seek::<{nt:?}>({bytes}) (block {}, offset {}) failed although the position is inside the keystream", p.blk, p.off);
             Ok(s)
         }
         Reach::SetBlockPos => {
-            let mut c = f.make_core(Ctor::New, key, iv).expect("harness: ctor");
+            let mut c = f.make_core(how, key, iv).expect("harness: ctor");
             c.set_block_pos(p.blk).ok_or_else(|| Violation { sig: format!("{sigp}/not-seekable/{ty}"), msg: "core no longer implements StreamCipherSeekCore".into() })?;
             let mut s = c.into_wrapper();
             if p.off > 0 {
